@@ -138,6 +138,8 @@ package sqlite
 //@   callsites AddVoucher 1
 //@   callassert AddVoucher#1: @noentries len(ov.Entries) == 0 && u(arg2) == u(ov)
 //@   callassert remove#1: @afteradd added(ov) == True()
+//@   callassert remove#1: @old arg2 == "vouchers" && mapval(arg3, "guid") == u(guid)
+//@   callassert remove#2: @undo arg2 == "vouchers" && mapval(arg3, "guid") == u(ov.Header.Val.GUID)
 
 // adding a voucher never overwrites an existing row (no upsert): a replacement that keeps
 // the GUID must fail instead of being deleted again by ReplaceVoucher's clean-up
@@ -341,3 +343,12 @@ package sqlite
 //@   callassert insert#1: @table arg2 == "sessions"
 //@   callassert EncodeToString#1: @inserted sessinserted(db) == True()
 //@   assume sessinserted(db) != True()
+
+// a plain INSERT fails on an existing row (AddVoucher, SetIncompleteVoucherHeader rely on it);
+// only an explicitly empty conflict list asks for INSERT OR IGNORE
+//@ func sqlite.insert
+//@   props C18 C03(functional)
+//@   sweep bounds
+//@   callsites ExecContext 1
+//@   callassert ExecContext#1: @ignore (orIgnore == "OR IGNORE ") == (upsertOnConflict != nil && len(upsertOnConflict) == 0)
+//@   callassert ExecContext#1: @plain orIgnore == "" || orIgnore == "OR IGNORE "
